@@ -100,6 +100,7 @@ def run(ck):
     ck.impl_flags = "-DWENCRY_VERIF -DWENCRY_VERIF_BUF_SZ=4 -DWENCRY_VERIF_HBUF_SZ=%d" % HBUF
     cases = gen_cases(ck)
     differential(ck, exe, cases, make_oracle(ck), src=True)
+    object_reuse(ck, exe)
     r = ck.rng
     parallel_purity(ck, exe, ["hstr %d %s" % (i // 4 % 3, bytes(r.randrange(256) for _ in range(r.choice([3, 55, 56, 64, 100, 130]))).hex()) for i in range(24)], "digests (same algorithm, different messages)", iters=1500)
     # the 2^32-bit counter: one message of 2^29+3 zero bytes per algorithm through the file entry point
@@ -113,3 +114,38 @@ def run(ck):
                          {"class": None, "case": "hfilep %d <sparse file of %d zero bytes>" % (alg, n), "implementation": got, "spec": ref})
     return finish_proof(ck, rule="every length 0..199 (thorough: 0..699) and lengths around multiples of the refill size (256 bytes here), x 3 algorithms x {string, file, file with 64-byte prefix block}; random content from the seeded PRNG; plus one 2^29+3-byte message per algorithm; spec cross-checked against Python hashlib on every case. distinct = distinct case lines",
                         assumptions=["little-endian host (u32 view of the message block)"])
+
+
+def object_reuse(ck, exe):
+    """ONE hasher object digests several messages one after the other (string and file entry points mixed), and digests written
+    into the message's own buffer (in place, overlapping its head or tail): each answer must be the standard digest of that message
+    alone.  What an earlier digest leaves in the object (a scratch block, a counter) shows only in such a sequence."""
+    r = ck.rng
+    lines, want = [], {}
+    lens = [0, 1, 31, 32, 54, 55, 56, 57, 60, 62, 63, 64, 65, 100, 119, 120, 127, 128, 200, 64 * HBUF - 1, 64 * HBUF, 64 * HBUF + 57]
+    for s in range(90 if ck.tier == "thorough" else 30):
+        alg = s % 3
+        items, exp = [], []
+        for j in range(r.randrange(2, 6)):
+            n = r.choice(lens) if j else r.choice([5, 40, 64, 100, 300])
+            m = bytes(r.randrange(256) for _ in range(n))
+            kind = r.choice("ssfi")
+            if kind == "i":
+                hl = PY[alg]().digest_size
+                off = r.choice([0, max(0, n - hl), max(0, n - hl // 2), n // 2, n])
+                items.append("i,%s,%d" % (wv.hexs(m) if m else "", off) if m else "s,")
+            else:
+                items.append("%s,%s" % (kind, wv.hexs(m) if m else ""))
+            exp.append(PY[alg](m).hexdigest())
+        lines.append("q%d hseq %d %s" % (s, alg, ";".join(items)))
+        want["q%d" % s] = " ".join(exp)
+    got = wv.run_lines([exe], lines, env=ck.env())
+    for l in lines:
+        cid = l.split()[0]
+        ck.cov["evaluations"] += 1
+        if got.get(cid) != want[cid]:
+            g, w = (got.get(cid) or "(no output)").split(" "), want[cid].split(" ")
+            k = next((i for i in range(len(w)) if i >= len(g) or g[i] != w[i]), 0)
+            ck.violation("digest %d of a sequence computed by ONE hasher object (or written into the message's own buffer) differs from the standard digest of that message" % k,
+                         {"class": None, "case": l[:3000], "item_index": k, "implementation": g[k] if k < len(g) else "(missing)", "spec": w[k], "replay": "echo 'x <case>' | harness/drv.cpp built against /repo"})
+    ck.cov.setdefault("case_classes", {})["hasher-object-reused/in-place-result"] = len(lines)
